@@ -196,6 +196,29 @@ Fill(st, m, k) ==
            ELSE UNION {Fill(st, m, Key("is_maybe_subtype", gt, k.l, 0)) : gt \in DOMAIN st.reg}
       [] OTHER -> {}
 
+RECURSIVE Deps(_, _, _)
+\* the cache entries the answer of a call is read from (the hits)
+Deps(st, m, k) ==
+  IF k \in DOMAIN m THEN {k}
+  ELSE CASE k.q \in {"is_subtype", "is_maybe_subtype"} ->
+           (CASE k.l.k = "inst" -> Deps(st, m, Key("is_subclass", k.l, k.r, 0))
+              [] k.l.k = "union" ->
+                   LET bs == [i \in DOMAIN k.l.a |-> Val(st, m, Key(k.q, k.l.a[i], k.r, 0)).b]
+                   IN UNION {Deps(st, m, Key(k.q, k.l.a[i], k.r, 0)) :
+                               i \in EvaluatedPrefix(bs, k.q = "is_maybe_subtype")}
+              [] OTHER -> {})
+      [] k.q = "subtype_distance" /\ k.r.k = "union" ->
+           UNION {Deps(st, m, Key("subtype_distance", k.l, k.r.a[i], 0)) : i \in DOMAIN k.r.a}
+      [] k.q = "offered" ->
+           IF st.prov = "G"
+           THEN UNION {
+                  LET d == Val(st, m, Key("subtype_distance", k.l, gt, 0)).n
+                  IN Deps(st, m, Key("subtype_distance", k.l, gt, 0)) \cup
+                     (IF d = Undef THEN {} ELSE Deps(st, m, Key("for_type", gt, NoT, d)))
+                  : gt \in DOMAIN st.reg}
+           ELSE UNION {Deps(st, m, Key("is_maybe_subtype", gt, k.l, 0)) : gt \in DOMAIN st.reg}
+      [] OTHER -> {}
+
 AfterQuery(st, m, k) ==
   LET new == Fill(st, m, k)
   IN [x \in (DOMAIN m) \cup new |-> IF x \in DOMAIN m THEN m[x] ELSE Val(st, m, x)]
